@@ -149,5 +149,8 @@ class BaseDB(object):
             usernames = self.db.keys()
         finally:
             self.lock.release()
-        usernames = [u for u in usernames if not u.startswith("--Reserved--")]
+        usernames = [u for u in usernames
+                     if not u.startswith(b"--Reserved--" if
+                                         isinstance(u, bytes)
+                                         else "--Reserved--")]
         return usernames
